@@ -667,7 +667,7 @@ class DeserPlan(ToolPlan):
 
 class FaultsPlan(ToolPlan):
     def __init__(self, prop, **kw):
-        super().__init__(prop, ["rig_r5", "rig_r9", "rig_misc"], **kw)
+        super().__init__(prop, ["rig_r5", "rig_r9", "rig_misc", "schedprogs"], **kw)
 
     def build(self, ctx):
         ok, msg = cargo_build(self.packages, ctx.log)
@@ -693,6 +693,12 @@ class FaultsPlan(ToolPlan):
                                  argv=["python3", os.path.join(ROOT, "lib", "run_faults.py"), out, os.path.join(TARGET, "release", rig), "faults", "--seed", str(ctx.seed * 2003 + n), "--worlds", "3" if quick else "10", "--max-k", "64" if quick else "400"],
                                  out=out, timeout=1800 if quick else 7200, death_is_violation=False))
                 n += 1
+        # panics inside the tasks of generated schedules (run_schedule on a pool and under the join hook)
+        bindir = os.path.join(ROOT, "schedprogs", "src", "bin")
+        for i, p in enumerate(sorted(f[:-3] for f in os.listdir(bindir) if f.endswith(".rs") and not f.startswith("sched_t"))):
+            out = os.path.join(ctx.scratch, f"{p}-faults.json")
+            jobs.append(dict(name=f"{p}-faults", kind="native", argv=[os.path.join(TARGET, "release", p), "faults", "--seed", str(ctx.seed * 43 + i), "--worlds", "8" if quick else "40", "--max-k", "40" if quick else "200", "--out", out],
+                             out=out, timeout=1800 if quick else 7200))
         if not NO_MIRI:
             for s in range(3 if quick else 12):
                 out = os.path.join(ctx.scratch, f"faults-miri-{s}.json")
@@ -836,7 +842,7 @@ PLANS = {
                    what="get/get_mut/view_resources/query resource views vs model per resource; resources unchanged by every entity op, clone, clone_from, round trip"),
     "C17": FaultsPlan("C17", floor=2000, level="fault_enumeration",
                       what="panic injected at every callback position k (Drop, Clone, PartialEq, Debug, Serialize, Deserialize, system / query bodies) of: remove (first/middle/last row, widest archetype), clear, Entry::add overwrite, Entry::remove, world drop, clone, "
-                           "clone_from (empty / other / smaller / larger destination), ==, Debug, serialize x3 carriers, deserialize x3 carriers, query, run_system, run_par_system, par_query; afterwards full read-only query, further ops, drop of every world; "
+                           "clone_from (empty / other / smaller / larger destination), ==, Debug, serialize x3 carriers, deserialize x3 carriers, query, run_system, run_par_system, par_query, and run_schedule of the 14 generated schedule programs (task starts and items, serial hook and 4-thread pool); afterwards full read-only query, further ops, drop of every world; "
                            "oracles: drop ledger, payload poison/checksum, allocator audit, process death; Miri on a sample of the operations without known findings",
                       rule="a case is one (world, operation, k); distinct = distinct (operation, fuse fired?, panicked?) classes; all positions k are enumerated up to --max-k per operation (evenly sampled beyond)",
                       assumptions=["leaks after a panic are allowed by the property and are not reported", "operations with a known finding are skipped in the Miri shards (Miri stops at the first report)",
